@@ -11,7 +11,7 @@ WATCH = ["AfterEndClean", "OneStop", "EndIdempotent", "OthersUntouched"]
 REQUIRED = {
     "dhcp.Server": ["L:release", "L:decline", "L:expiry", "E:release", "E:decline", "E:expiry", "O:release", "O:decline", "O:expiry",
                     "S:release", "S:decline", "S:expiry", "A:release", "A:decline", "A:expiry"],
-    "dhcp.Server+HTTPAllocator": ["L:release", "L:decline", "L:expiry", "E:release", "E:decline", "E:expiry", "O:release", "O:decline", "O:expiry",
+    "dhcp.Server+nexus": ["L:release", "L:decline", "L:expiry", "E:release", "E:decline", "E:expiry", "O:release", "O:decline", "O:expiry",
                                   "S:release", "S:decline", "S:expiry", "A:release", "A:decline", "A:expiry"],
     "pppoe.Server": ["L:padt", "L:lcpterm", "L:authfail", "L:idle", "E:padt", "E:lcpterm", "E:authfail", "E:idle", "O:padt", "O:lcpterm", "O:authfail", "O:idle",
                      "A:padt", "A:lcpterm", "A:authfail", "A:idle"],
@@ -30,7 +30,7 @@ ASSUMPTIONS = [
     "circuit_id_subscribers; key/value sizes of the Go types the loader marshals) injected by reflection; needs CAP_BPF, exit 2 otherwise. The DHCP server never sets a lease's S/C tags, so VLAN-pair cache entries never exist (observed, always empty)",
     "dhcp renewals: a client renews (REQUEST with ciaddr) only while it believes it is bound (ACKed, and since then it neither released / declined nor let its lease run out unrenewed); a relayed client's "
     "renewal passes a relay agent that inserts an option 82 with only a remote-id (no circuit-id sub-option), a direct client's renewal carries no option 82; the renewals inside an expiry event carry the full option 82",
-    "dhcp.Server+HTTPAllocator (systems dhcp-nexus/...): the same wiring plus SetHTTPAllocator (walled-garden / Nexus mode, as cmd/bng with --nexus-url: HealthCheck, GetPoolInfo, SetHTTPAllocator) with the real "
+    "dhcp.Server+nexus (systems dhcp-nexus/...): the same wiring plus SetHTTPAllocator (walled-garden / Nexus mode, as cmd/bng with --nexus-url: HealthCheck, GetPoolInfo, SetHTTPAllocator) with the real "
     "nexus.HTTPAllocator over real TCP against a process-wide httptest fake Nexus outside the bubbles that knows the pool and answers 404 to every allocation lookup (nobody is activated), so every subscriber is served "
     "from the local pool; every response closes its connection (an idle kept-alive connection's read loop is not durably blocked and would stall synctest.Wait); activated subscribers (address from Nexus) are not modelled. "
     "In this mode the clients follow the RFC 2131 state machine: a client that released / declined / let its lease run out forgets its selected offer (the mode acknowledges ANY address a lease-less client REQUESTs, "
